@@ -147,6 +147,12 @@ def scan(chk):
                     sites.append(f"{rel}::{fn.name}: {ast.unparse(n)}")
                 if isinstance(n, (ast.For, ast.comprehension)) and isinstance(n.iter, ast.Name) and n.iter.id in setvars:
                     sites.append(f"{rel}::{fn.name}: iteration over set `{n.iter.id}`")
+                # a set operator applied to sets or key views yields a plain set, whatever order its operands had
+                if isinstance(n, (ast.For, ast.comprehension)) and isinstance(n.iter, ast.BinOp) \
+                        and isinstance(n.iter.op, (ast.BitAnd, ast.BitOr, ast.Sub, ast.BitXor)) \
+                        and any((isinstance(x, ast.Call) and ast.unparse(x.func).endswith((".keys", ".items")) or ast.unparse(x) in setvars
+                                 or (isinstance(x, ast.Call) and ast.unparse(x.func) in ("set", "frozenset"))) for x in (n.iter.left, n.iter.right)):
+                    sites.append(f"{rel}::{fn.name}: iteration over the set `{ast.unparse(n.iter)}`")
     chk.extra["set_to_sequence_sites"] = sites
     chk.ob("scan/no set or key view is turned into a list/tuple or iterated on the compile path (local dataflow)", not sites, "structural",
            "proved", detail=str(sites))
@@ -185,6 +191,9 @@ def hashseeds(chk):
         "(setv g1 0) (defn f [] (setv a 1 b 2 c 3 d 4 e 5) (defn g [] (nonlocal e g1 d c b a) (setv a 0)) (g))",
         "(defn f [] (setv m 1 n 2 o 3) (defclass C [] (defn k [self] (nonlocal o n m) (setv m 5))))",
         "(import os [path :as p  sep getcwd]) (defmacro mm [] 1) (require hy.core.macros *)",
+        # a local require without a name list: the macros brought in are named one by one in the emitted code
+        "(pragma :warn-on-core-shadow False) (defn f [] (require hy.core.macros *) 1) (defclass K [] (require hy.core.macros :as cm))",
+        "(pragma :warn-on-core-shadow False) (defn g [] (lfor i [1] :do (require hy.core.macros) i))",
         "(match [1 2] [a b #* rest] :as whole [a b rest whole] {\"k\" v #** more} [v more])",
         "(try (setv zz (/ 1 0)) (except [e1 ZeroDivisionError] 1) (except [e2 [KeyError ValueError]] 2) (finally 3))",
     ]
